@@ -266,6 +266,11 @@ inductive Op where
   | dictUpdate (o : Nat) (keys : List Nat)    -- o.byname.update({k: N() …}) / o.byname |= {…}
   | dictDel (o : Nat) (key : Nat)              -- del o.byname[k]
   | dictClear (o : Nat)                        -- o.byname.clear()
+  | rearrange (o d p n : Nat) (inplace : Bool)
+      -- the list keeps `permute p (kids[d:])` and gains n fresh objects at the end:
+      -- in place (`kids.reverse()`, `kids.sort(...)`, `kids[:] = …`) or by reassignment
+      -- (`o.kids = o.kids[1:] + [N()]`, `o.kids = list(reversed(o.kids))`)
+  | dictCarry (o d : Nat)                     -- o.byname = dict(reversed(list(o.byname.items())[d:]))
   | probe (o : Nat) (f : Final)                -- o.value += 1
   | reg                                       -- root.on_trait_change(handler, name)
   | unreg                                     -- root.on_trait_change(handler, name, remove=True)
@@ -301,6 +306,13 @@ def dictUpd : List (Nat × Nat) → List (Nat × Nat) → List (Nat × Nat) × L
     | none =>
       let r := dictUpd (d ++ [(k, v)]) kvs
       (r.1, v :: r.2.1, r.2.2)
+
+/-- The reorderings of a list used by `Op.rearrange`: identity, reversal, rotation. -/
+def permute (p : Nat) (l : List Nat) : List Nat :=
+  match p with
+  | 0 => l
+  | 1 => l.reverse
+  | _ => l.drop 1 ++ l.take 1
 
 /-- The heap change, the trait that fires and what its `handle_*` methods do.
 `none` = the operation is not applicable (skipped on both sides). -/
@@ -380,6 +392,28 @@ def mutate (h : Heap) : Op → Option Mut
       let olds := targets h .byname o
       let h' := h.setObj o { h.obj o with byname := [] }
       some ⟨h', o, .items .byname, unregAll olds, !olds.isEmpty⟩
+    else none
+  | .rearrange o d p n inplace =>
+    if o < h.next then
+      let kids := (h.obj o).kids
+      let news := permute p (kids.drop d) ++ freshIds h n
+      let h' := (h.setObj o { h.obj o with kids := news }).bump n
+      -- in place: TraitList.reverse / sort / __setitem__(slice(None)) notify (0, removed = all the old
+      --   items, added = all the new items) unless both are empty (trait_list_object.py:347, 473, 497);
+      -- reassignment: the `kids` trait fires iff `old != new` (comparison_mode equality; `==` of the
+      --   items is identity).  Either way handle_list(old items, new items):
+      --   unregister every old item, THEN register every new item
+      some ⟨h', o, if inplace then .items .kids else .link .kids, unregAll kids ++ regAll news,
+            if inplace then !(kids.isEmpty && news.isEmpty) else decide (kids ≠ news)⟩
+    else none
+  | .dictCarry o d =>
+    if o < h.next then
+      let dct := (h.obj o).byname
+      let d' := (dct.drop d).reverse
+      let h' := h.setObj o { h.obj o with byname := d' }
+      -- dict `!=` ignores order: the trait fires iff an entry was dropped.  handle_dict(old, new)
+      some ⟨h', o, .link .byname, unregAll (dct.map (·.2)) ++ regAll (d'.map (·.2)),
+            decide (0 < min d dct.length)⟩
     else none
   | .probe o f =>
     if o < h.next then some ⟨h, o, .final f, [], true⟩ else none
